@@ -11,6 +11,7 @@
 package resgen
 
 import (
+	"math/bits"
 	"math/rand"
 
 	"pgregory.net/rapid"
@@ -36,11 +37,24 @@ func FromRand(r *rand.Rand) Src { return randSrc{r} }
 
 type rapidSrc struct{ t *rapid.T }
 
+// Intn draws uniformly: rapid's integer generators are deliberately biased
+// towards small magnitudes (which would distort every weight of the generators),
+// its booleans are not, so the number is assembled from boolean draws. All-false
+// (what the shrinker aims for) is 0.
 func (s rapidSrc) Intn(n int) int {
 	if n <= 1 {
 		return 0
 	}
-	return rapid.IntRange(0, n-1).Draw(s.t, "c")
+	k := bits.Len(uint(n-1)) + 3
+	bs := rapid.SliceOfN(rapid.Bool(), k, k).Draw(s.t, "c")
+	v := 0
+	for _, b := range bs {
+		v <<= 1
+		if b {
+			v |= 1
+		}
+	}
+	return v % n
 }
 
 // FromRapid adapts a rapid test (choices shrink towards 0, so generators put the
